@@ -135,11 +135,17 @@ def viewSexp (S : Schema) (v : View) : Sexp :=
     | none => false
   let spEntries := comp.flatMap fun p => comp.map fun t =>
     Sexp.list [Sexp.atom "sp", Sexp.str p, Sexp.str t, Sexp.ofBool (v.spreadPossible t p)]
+  let objs := (S.types.filter (fun t => t.kind == .object)).map (·.name)
+  let abstr := comp.filter fun n => match v.kindOf n with
+    | some k => k == .interface || k == .union
+    | none => false
+  let rcEntries := abstr.flatMap fun a => objs.map fun o =>
+    Sexp.list [Sexp.atom "rc", Sexp.str a, Sexp.str o, Sexp.ofBool ((v.resolveCandidates a).contains o)]
   .list ([Sexp.atom "view",
           .list (Sexp.atom "types" :: v.typesListing.map Sexp.str),
           .list [Sexp.atom "query", Sexp.str v.queryType],
           .list [Sexp.atom "mutation", Sexp.str (v.mutationType.getD "-")]]
-         ++ typeEntries ++ lkEntries ++ gfEntries ++ spEntries)
+         ++ typeEntries ++ lkEntries ++ gfEntries ++ spEntries ++ rcEntries)
 
 def featsOf (xs : List String) : Feats := fun s => xs.contains s
 
@@ -154,7 +160,10 @@ def handle (st : St) (line : String) : St × String :=
   match Sexp.parse line with
   | some (.list [.atom "schema", s]) =>
     match parseSchema s with
-    | some S => ({ st with schema := S }, if Accepted S then "(accepted true)" else "(accepted false)")
+    | some S =>
+      ({ st with schema := S },
+       "(accepted " ++ (if Accepted S then "true" else "false") ++ " " ++
+         (if RootsUngated S then "rootsUngated" else "rootsGated") ++ ")")
     | none => (st, "bad-schema")
   | some (.list [.atom "erase", fs]) =>
     match atoms fs with
@@ -174,7 +183,7 @@ def handle (st : St) (line : String) : St × String :=
     match atoms fs, parseSels q with
     | some f, some sels =>
       let (S, F) := pick st.schema (featsOf f) which
-      (st, toString (Sexp.list ((walk (view S F) root sels).map eventSexp)))
+      (st, toString (Sexp.list ((walk (view S F) (if root == "" then none else some root) sels).map eventSexp)))
     | _, _ => (st, "bad-op")
   | _ => (st, "bad-op")
 
